@@ -28,7 +28,7 @@ def s_expand_removable(ctx, strategy, xrank="any", yrank="any"):
     from onnxscript.rewriter.rules.common import _remove_expand_before_binary_op as mod
     from contracts.c03_folding import choose_shape
     I, W, N = setup(ctx)
-    kinds = ["int", "one", "N", "M"] if (xrank in (None, 0, 1) and yrank in (None, 0, 1)) else ["int", "one", "N"]
+    kinds = ["int", "one", "N", "M", "unknown"] if (xrank in (None, 0, 1) and yrank in (None, 0, 1)) else ["int", "one", "N", "unknown"]
 
     def shape_of(tag, allow_none=False, max_rank=2, fixed="any"):
         opts = ([None] if allow_none else []) + list(range(max_rank + 1))
